@@ -1,6 +1,6 @@
 (* C18: assembly of the property statements from the one-pass facts, the write-path simulation and the
    principal lemmas. *)
-From SG Require Import Base.Prelude C18.Resync C18.SetLemmas C18.ResyncProofs C18.ReplayProofs C18.AccessProofs.
+From SG Require Import Base.Prelude C18.Resync C18.SetLemmas C18.ResyncProofs C18.ReplayProofs C18.AccessProofs C18.Concurrent C18.HistoryProofs.
 Open Scope N_scope.
 
 (* the function accepts every revision of the corpus and the body of a plain deletion *)
@@ -118,6 +118,52 @@ Section Final.
     { eapply seteq_trans; [apply coherent_effective; [exact Hc' | exact Hu]|].
       apply effective_gequiv. apply fin_gequiv. exact F. }
     split; [exact HE|]. apply visible_eq; [eapply fin_vequiv; exact F | exact HE].
+  Qed.
+
+  (* the same for ANY coherent pre-state of the principals, with the roles spelled out *)
+  Lemma principals_any : forall ws fixed ifixed regen alloc ps,
+    accepts empty sync_old ws -> accepts empty sync_new ws -> tomb_agree empty sync_old sync_new ws ->
+    coherent (replay empty sync_old [] ws) ps -> regen = false \/ ifixed = true ->
+    let r := run sync_new fixed ifixed regen alloc (replay empty sync_old [] ws) ps in
+    forall u, In u (ps_users (snd r)) ->
+      seteq (user_rl (fst (fst r)) u) (user_rl (replay empty sync_new [] ws) (inval_user u)) /\
+      seteq (effective (fst (fst r)) (snd r) u)
+            (effective (replay empty sync_new [] ws) (invalidate_all (snd r)) (inval_user u)) /\
+      visible (fst (fst r)) (snd r) u = visible (replay empty sync_new [] ws) (invalidate_all (snd r)) (inval_user u).
+  Proof.
+    intros ws fixed ifixed regen alloc ps H1 H2 H3 Hco Hsw r u Hu.
+    destruct (principals_visible ws fixed ifixed regen alloc ps H1 H2 H3 Hco Hsw u Hu) as [He Hv].
+    split; [|split; assumption].
+    subst r. unfold run in *.
+    pose proof (finish_coherent body sync_new fixed ifixed regen alloc _ ps Hco Hsw) as Hc'.
+    pose proof (fin_gequiv _ _ (fin_tomb ws fixed regen alloc H1 H2 H3)) as G.
+    destruct (resync_db sync_new fixed regen alloc (replay empty sync_old [] ws)) as [rs n]. cbn in *.
+    destruct Hc' as [Hcu _]. destruct (Hcu u Hu) as [_ Hl].
+    eapply seteq_trans with (b := compute_user_rl rs u).
+    - unfold user_rl. destruct (u_rl u) as [c|]; [apply Hl; reflexivity | apply seteq_refl].
+    - unfold user_rl, inval_user, compute_user_rl. cbn. apply seteq_app; [apply seteq_refl | apply role_granted_gequiv; exact G].
+  Qed.
+
+  (* ... and for every pre-state REACHED by a history of writes (each invalidating the computed channels /
+     roles of exactly the principals whose grants it changes) and user loads, starting from principals as
+     created: every combination of pending channel / role invalidations *)
+  Lemma principals_history : forall (h : list (pop body)) ps0 fixed ifixed regen alloc,
+    accepts empty sync_old (writes_of h) -> accepts empty sync_new (writes_of h) ->
+    tomb_agree empty sync_old sync_new (writes_of h) -> regen = false \/ ifixed = true ->
+    let st := hist empty sync_old (@nil doc, warm (@nil doc) (invalidate_all ps0)) h in
+    let r := run sync_new fixed ifixed regen alloc (fst st) (snd st) in
+    forall u, In u (ps_users (snd r)) ->
+      seteq (user_rl (fst (fst r)) u) (user_rl (replay empty sync_new [] (writes_of h)) (inval_user u)) /\
+      seteq (effective (fst (fst r)) (snd r) u)
+            (effective (replay empty sync_new [] (writes_of h)) (invalidate_all (snd r)) (inval_user u)) /\
+      visible (fst (fst r)) (snd r) u = visible (replay empty sync_new [] (writes_of h)) (invalidate_all (snd r)) (inval_user u).
+  Proof.
+    intros h ps0 fixed ifixed regen alloc H1 H2 H3 Hsw st.
+    pose proof (hist_coherent body empty sync_old h (@nil doc) (warm (@nil doc) (invalidate_all ps0))
+                  (warm_coherent body (@nil doc) _ (coherent_invalidated body (@nil doc) ps0))) as Hco.
+    subst st. rewrite (hist_db body empty sync_old h (@nil doc) (warm (@nil doc) (invalidate_all ps0))) in Hco.
+    rewrite (hist_db body empty sync_old h (@nil doc) (warm (@nil doc) (invalidate_all ps0))).
+    exact (principals_any (writes_of h) fixed ifixed regen alloc _ H1 H2 H3 Hco Hsw).
   Qed.
 
   Lemma idempotent : forall (db : list doc) fixed ifixed regen alloc alloc' ps,
